@@ -54,8 +54,9 @@ LEVEL_TEXT = (
     "events (Closed under the global context), instantiated with the finally block and footprints extracted from today's "
     "server.py. C10_finally_guard_needed, C10_finally_logout_needed and C10_atomicity_needed show that the extracted facts are "
     "load-bearing. The full property is REFUTED on the current source for one family of histories (finding F24, "
-    "C10_every_end_reaches_finally_refuted_F24, reproduced on simnet and on real loopback TCP): a QUIT pipelined behind commands "
-    "whose replies are still unwritten when the control connection fails never reaches the dispatcher's finally block, the session "
+    "C10_every_end_reaches_finally_refuted_F24, reproduced on simnet and on real loopback TCP): a burst containing QUIT on a control "
+    "connection that fails with at least one reply queued behind the first reply that cannot be written never reaches the "
+    "dispatcher's finally block, the session "
     "keeps its slots until Server.close(); the theorems are the carved part (histories in which every dispatched QUIT / refused "
     "greeting is followed by its end event - checked per history on the real server). The tie is bounded-exhaustive + crash-point + random histories over <= 3 sessions on the real server "
     "(simnet), counters read from the real objects after every event."
@@ -73,7 +74,8 @@ TRUSTED = [
 ]
 ASSUMPTIONS = [
     "the model's `Quit i` / refused `Greeting i` mean: dispatched AND the dispatcher left `await response_queue.join()`; on the real "
-    "server that holds unless the connection fails with >= 2 replies unacknowledged (finding F24); every other way of losing the "
+    "server that holds unless the connection fails with a reply queued behind the first one that cannot be written (finding F24: "
+    "QUIT anywhere in a pipelined burst); every other way of losing the "
     "control connection on write (the n-th reply, the final reply of QUIT, a refused USER, the greeting 220/421, behind a write "
     "speed limit) is exercised and ends the session",
     "modelled, not verified: user managers whose get_user, or notify_logout called from user(), really suspend (a notify_logout "
@@ -86,10 +88,11 @@ PORT = 2121
 IDLE = 10
 WPAUSE = 60  # virtual seconds given to a server with a write speed limit to say everything it has queued
 KEY_ENDED = "c10-ended-session-holds-slot"
-# finding F24 (unchanged aioftp): QUIT pipelined behind commands whose replies are still unwritten when the control connection
-# fails: response_writer dies at the first reply it cannot write, the dispatcher - already in `await response_queue.join()` or
-# getting there - waits for ever for the replies behind it; its finally block never runs
-KEY_F24 = "c10-quit-behind-unwritten-replies-connection-fails"
+# finding F24 (unchanged aioftp): a burst that contains QUIT (anywhere) on a control connection that fails while at least one
+# reply is queued BEHIND the first reply that cannot be written: response_writer dies at that reply (one task_done()), the
+# dispatcher - already in `await response_queue.join()` after QUIT or getting there - waits for ever for the replies behind
+# it; its finally block never runs
+KEY_F24 = "c10-quit-burst-reply-queued-behind-failed-write"
 NOCODES = ("cmds_end", "cmds_wfault", "connect_wfault")  # how many replies still get out before the end is not a C10 matter
 
 # model event tags (Model/Counters.v event_of_sx)
@@ -155,14 +158,30 @@ def quit_position(burst):
     return None
 
 
+def burst_shape(burst):
+    """(QUIT is dispatched, number of commands that can queue a reply): QUIT counts when no injected handler error comes
+    before it (that one ends the session by itself); every command without an injected error can queue a reply - those
+    pipelined AFTER QUIT too: the dispatcher has already started the next parse_command when QUIT's handler runs"""
+    quit_seen, boom_seen, r = False, False, 0
+    for verb, arg in burst:
+        if arg == "boom":
+            boom_seen = True
+            continue
+        r += 1
+        if verb == "QUIT" and not boom_seen:
+            quit_seen = True
+    return quit_seen, r
+
+
 def ended_key(a):
-    """the replay key of 'control connection closed, session still registered' left behind by action a: the input shape of
-    finding F24 (a QUIT with at least one earlier reply of the same burst unwritten when the connection fails: the failing
-    write is that of a reply BEFORE the final one, or the peer ends the connection while >= 2 replies incl. QUIT's are due),
-    the generic key otherwise (QUIT alone, the final reply itself failing, no QUIT at all, the greeting, any other action)"""
+    """the replay key of 'control connection closed, session still registered' left behind by action a.  Finding F24's
+    input class: a burst that contains QUIT (anywhere) on a control connection that fails while at least one reply can be
+    queued BEHIND the first reply that cannot be written (the failing write is not that of the burst's last possible
+    reply; or the peer ends the connection while >= 2 replies of the burst are due).  The generic, unlisted key otherwise:
+    QUIT alone, the last reply failing, no QUIT at all, the greeting alone, any other action"""
     if a[0] in ("cmds_end", "cmds_wfault"):
-        q = quit_position(a[2])
-        if q is not None and q >= 2 and (a[0] == "cmds_end" or a[3] < q):
+        has_quit, r = burst_shape(a[2])
+        if has_quit and r >= 2 and (a[0] == "cmds_end" or a[3] < r):
             return KEY_F24
     return KEY_ENDED
 
@@ -182,12 +201,23 @@ def model_events(actions, gated=False, stuck=None):
             evs.append([OTHER, 99, ""])
             bounds.append(len(evs) - 1)
             continue
-        if k_act in stuck and kind in ("cmds_end", "cmds_wfault") and stuck[k_act] == a[1]:
+        if k_act in stuck and kind in ("cmds_end", "cmds_wfault") and stuck[k_act][0] == a[1]:
             # F24 as the implementation behaves: everything before QUIT was carried out, QUIT was dispatched, and the
-            # session stays registered with whatever it holds
+            # session stays registered with whatever it holds.  Of the commands pipelined AFTER QUIT the first `extra`
+            # were carried out as well: their handler tasks were started before the dispatcher got to QUIT's result
+            # (the order in which asyncio.wait's `done` set is walked decides: scheduling, not input)
+            extra = stuck[k_act][1]
+            after = False
             for c in a[2]:
-                if c[0] == "QUIT":
-                    break
+                if c[0] == "QUIT" and not after:
+                    after = True
+                    continue
+                if after:
+                    if extra <= 0:
+                        break
+                    extra -= 1
+                    if c[0] == "QUIT" or c[1] == "boom":
+                        continue
                 evs.append(cmd_event(a[1], c))
             evs.append([OTHER, 99, ""])
             bounds.append(len(evs) - 1)
@@ -384,6 +414,12 @@ def run_impl(cfg, actions, segment=False):
         sts = {}  # client port -> the server's transport of that control connection
         zombies = set()
         current = [None]
+        ended_by_harness = set()  # sessions whose control connection the harness itself has ended / broken
+
+        def addressed(j):
+            """may session j still be talked to and judged?  Not once the harness has ended its connection (whatever the
+            server then does with the session is judged by the oracles, not by sending it more commands)"""
+            return j not in ended_by_harness and conn_of(raws[j]) is not None
         armed = []  # a write fault waiting for the next accepted connection
 
         def arm(st, nth, exc_kind):
@@ -541,7 +577,7 @@ def run_impl(cfg, actions, segment=False):
                     codes += got
             elif kind == "cmds":
                 raw = raws[a[1]]
-                if conn_of(raw) is not None:
+                if addressed(a[1]):
                     # expected refusals, from the real objects, only for single commands
                     expect = None
                     if len(a[2]) == 1 and a[2][0][0] == "USER" and a[2][0][1] != "boom":
@@ -563,19 +599,23 @@ def run_impl(cfg, actions, segment=False):
                 armed.append((1, a[1]))
                 raw = await Raw.connect(net, PORT)
                 raws.append(raw)
+                ended_by_harness.add(len(raws) - 1)
                 await raw.drain_replies()
                 del armed[:]
             elif kind == "cmds_wfault":
                 raw = raws[a[1]]
                 st = sts.get(raw.writer.transport.get_extra_info("sockname")[1])
-                if conn_of(raw) is not None and st is not None:
+                if addressed(a[1]) and st is not None:
                     arm(st, a[3], a[4])
                     send_burst(raw, a[2])
+                    ended_by_harness.add(a[1])
                 await raw.drain_replies()
             elif kind == "cmds_end":
                 raw = raws[a[1]]
                 how, k, t = a[3], a[4], a[5]
-                if conn_of(raw) is not None:
+                live_now = addressed(a[1])
+                ended_by_harness.add(a[1])
+                if live_now:
                     if wl and t:
                         # fresh throttle memory (public setter): the first reply of the burst leaves at once, every later
                         # one sleeps len(previous replies) / limit seconds in the throttle before it is written
@@ -591,29 +631,32 @@ def run_impl(cfg, actions, segment=False):
                 if how == "reset":
                     raw.writer.transport.abort()
                 elif how == "dropmid":
-                    if conn_of(raw) is not None:
+                    if live_now:
                         raw.writer.write(b"US")
                     raw.close()
                 else:
                     raw.close()
                 await raw.drain_replies()
             elif kind == "drop":
+                ended_by_harness.add(a[1])
                 raws[a[1]].close()
                 await net.settle()
             elif kind == "reset":
+                ended_by_harness.add(a[1])
                 raws[a[1]].writer.transport.abort()
                 await net.settle()
             elif kind == "dropmid":
                 raw = raws[a[1]]
-                if conn_of(raw) is not None:
+                if addressed(a[1]):
                     raw.writer.write(b"US")
+                ended_by_harness.add(a[1])
                 raw.close()
                 await net.settle()
             elif kind == "idle":
                 # only session a[1] stays silent for IDLE seconds: the others keep talking
                 for pause in (1, IDLE - 0.5):
                     for j, r in enumerate(raws):
-                        if j != a[1] and conn_of(r) is not None:
+                        if j != a[1] and addressed(j):
                             r.writer.write(b"NOOP\r\n")
                     await net.settle()
                     for r in raws:
@@ -671,6 +714,11 @@ def run_impl(cfg, actions, segment=False):
             await net.settle()
         if not closed[0]:
             await do_close()
+        elif any(key == KEY_F24 and conn_of(raws[j]) is not None for (_, j, key) in zombie_log):
+            # a session left registered in the way of finding F24 AFTER Server.close() had run (accepted right before it:
+            # connect_close): only another Server.close() ends it - as for every other F24 session in this harness
+            await server.close()
+            await net.settle()
         if gated:
             for _ in range(3):
                 um.release()
@@ -710,9 +758,10 @@ def run_impl(cfg, actions, segment=False):
             # CPython 3.12.1 StreamReaderProtocol's done-callback calls task.exception() on the dispatcher
             # task that Server.close() cancelled; same with real sockets, nothing to do with aioftp
             pass
-        elif e.startswith(("ConnectionResetError(", "BrokenPipeError(")):
+        elif e.startswith(("ConnectionResetError(", "BrokenPipeError(", "RuntimeError('injected ")):
             # "Task exception was never retrieved": the response_writer task that failed on the lost connection while the
-            # dispatcher was already leaving through `await response_queue.join()`; log noise, not an accounting matter
+            # dispatcher was already leaving through `await response_queue.join()`, or a handler task with an injected error
+            # whose dispatcher ended through the lost connection at the same moment; log noise, not an accounting matter
             pass
         else:
             problems.append(("unexpected-loop-error", e))
@@ -776,11 +825,36 @@ def check_history(ctx, cfg, actions, msnaps, bounds, segment, stream, fin=None):
     ctx.traces_impl += 1
     ctx = _Capped(ctx)
     snaps, problems = run_impl(cfg, actions, segment)
-    stuck = {k: j for (k, j, key) in run_impl.zombies if key == KEY_F24}
-    if stuck and fin is not None:
-        # the implementation showed finding F24 on this history: the model is run on the events as they really happened
-        evs, bounds = model_events(actions, gated=bool(cfg.get("gated")), stuck=stuck)
-        msnaps = ctx.model([(0, [cfg_sx(cfg, fin), evs])])[0]
+    zs = sorted((k, j) for (k, j, key) in run_impl.zombies if key == KEY_F24)
+    if zs and fin is not None:
+        # the implementation showed finding F24 on this history: the model is run on the events as they really happened.
+        # How many of the commands pipelined behind QUIT were still carried out is a matter of scheduling: the
+        # implementation's state after the action must be ONE of the model's (0, 1, .. of them, in order)
+        stuck = {}
+        for k, j in zs:
+            n_after = 0
+            seen_quit = False
+            for c in actions[k][2]:
+                if seen_quit:
+                    n_after += 1
+                elif c[0] == "QUIT":
+                    seen_quit = True
+            cands = []
+            for e in range(n_after + 1):
+                st = dict(stuck)
+                st[k] = (j, e)
+                evs, bounds = model_events(actions, gated=bool(cfg.get("gated")), stuck=st)
+                cands.append((st, evs, bounds))
+            res = ctx.model([(0, [cfg_sx(cfg, fin), evs]) for (_, evs, _) in cands])
+            ns = sum(a[1] if a[0] == "connect_many" else 1 for a in actions[: k + 1] if a[0] in ("connect", "connect_close", "connect_wfault", "connect_many"))
+            pick = 0
+            for e, ((st, evs, bnds), ms) in enumerate(zip(cands, res)):
+                msrv, mucs, msess, _ = model_view(ms[bnds[k]], ns)
+                if (msrv, mucs, msess) == (snaps[k]["srv"], snaps[k]["users"], snaps[k]["sessions"]):
+                    pick = e
+                    break
+            stuck, _, bounds = cands[pick]
+            msnaps = res[pick]
     replay = {"cfg": cfg, "actions": actions, "segment": segment}
     ok = True
     nsess = 0
@@ -1093,6 +1167,7 @@ def random_history(rng, max_sessions=3, length=14):
     acts = []
     n = 0
     closed = False
+    gone = set()
     for _ in range(rng.randint(4, length)):
         r = rng.random()
         if n == 0 or (r < 0.22 and n < max_sessions and not closed):
@@ -1109,8 +1184,11 @@ def random_history(rng, max_sessions=3, length=14):
         r = rng.random()
         if r < 0.07 and n < max_sessions and not closed:
             acts.append(("connect_wfault", rng.choice(["reset", "pipe"])))  # the greeting cannot be written
+            gone.add(n)
             n += 1
             continue
+        if i in gone:
+            continue  # a session whose connection the harness has broken is not addressed again
         if r < 0.62:
             cmds = []
             for _ in range(rng.choice([1, 1, 1, 2, 3])):
@@ -1124,6 +1202,12 @@ def random_history(rng, max_sessions=3, length=14):
                 else:
                     cmds.append(("QUIT", ""))
             q = rng.random()
+            if q < 0.24 and any(v == "QUIT" for v, _ in cmds):
+                # an injected handler error next to QUIT in a burst whose connection fails: which of the two ends the
+                # session is scheduling; keep the two dimensions apart
+                cmds = [(v, {"USER": "zz", "PASS": "bad"}.get(v, x) if x == "boom" else x) for v, x in cmds]
+            if q < 0.24:
+                gone.add(i)
             if q < 0.12 and replies_of(cmds) >= 1:  # the connection fails ON WRITE at one of the replies
                 acts.append(("cmds_wfault", i, cmds, rng.randint(1, replies_of(cmds)), rng.choice(["reset", "pipe"])))
             elif q < 0.24:  # the peer ends the connection while the replies are pending
@@ -1293,6 +1377,9 @@ def correspondence(ctx, budget=None):
 
 
 F24_WITNESSES = {
+    # QUIT FIRST, the write of its own 221 fails, the reply of the command pipelined behind it is queued behind the failed write
+    "quit-first": ({}, [("connect",), ("cmds", 0, [("USER", "b")]), ("cmds_wfault", 0, [("QUIT", ""), ("NOOP", "")], 1, "reset"),
+                       ("connect",)]),
     # (cfg extras, history): the connection fails ON WRITE / is reset while QUIT's reply is queued behind another one
     "write-fails": ({}, [("connect",), ("cmds", 0, [("USER", "b")]), ("cmds_wfault", 0, [("NOOP", ""), ("QUIT", "")], 1, "reset"),
                         ("connect",)]),
